@@ -198,3 +198,11 @@ package table
 //@   requires bwf(buf) && buf.off == 0
 //@   at before call io.Writer.Write#1
 //@     assert [C13:block-trailer] n == len(b) - 4 && n >= 1 && le32(b, n) == blockcrc(bytes(b[:n])) && (b[n-1] == blockTypeNoCompression || b[n-1] == blockTypeSnappyCompression)
+
+// Summarised by their inferred effects wherever they are called (nothing is assumed about their results).
+//@ func (*Reader).NewIterator
+//@   props C19
+//@   trusted
+//@ func NewReader
+//@   props C19
+//@   trusted
